@@ -14,7 +14,9 @@ connection, never removed an entry and raised `KeyError` for a connection withou
 
 Abstractions: connection, user and unit ids are `Nat` (the harness maps them to strings); `dms` is the set of
 (connection, user) pairs of `dead_man_switch_user_ids`; `active` the set of (unit, user) pairs over all
-`engine_data.active_users`; the set of known units is fixed during a history (`e < nUnits`); the user *name* and
+`engine_data.active_users`; units are `0 … nUnits-1`, all registered at the start; `FromEngine.engine_disconnected`
+/ `register_engine_data` take a unit out of `_engine_data_map` / put a fresh `EngineData` in (`down` = units that are
+away; their lists are gone with the object, requests for them answer False); the user *name* and
 the `publish_active_users_changed` notifications are not modelled.
 -/
 namespace OPM.ActiveUsers
@@ -30,6 +32,8 @@ inductive Op where
   | disconnect (c : Nat)
   | register (e u : Nat)
   | unregister (e u : Nat)
+  | engineDown (e : Nat)   -- FromEngine.engine_disconnected(e): the unit's EngineData leaves the map
+  | engineUp (e : Nat)     -- FromEngine.register_engine_data(fresh EngineData for e)
 deriving Repr, DecidableEq
 
 inductive Out where
@@ -39,9 +43,10 @@ deriving Repr, DecidableEq
 structure State where
   dms : List (Nat × Nat)      -- (connection, user)
   active : List (Nat × Nat)   -- (unit, user)
+  down : List Nat := []       -- units (< nUnits) whose engine is currently away: not in `_engine_data_map`
 deriving Repr, DecidableEq
 
-def init : State := ⟨[], []⟩
+def init : State := ⟨[], [], []⟩
 
 /-- Users named by the dead-man-switch topics that are processed before the first malformed one. -/
 def subscribedUsers : List Topic → List Nat
@@ -64,17 +69,27 @@ def dropUsers (dms : List (Nat × Nat)) (us : List Nat) (active : List (Nat × N
 
 def step (nUnits : Nat) (s : State) : Op → State × Out
   | .subscribe c ts =>
-    (⟨(subscribedUsers ts).foldl (fun d u => addPair (c, u) d) s.dms, s.active⟩,
+    ({ s with dms := (subscribedUsers ts).foldl (fun d u => addPair (c, u) d) s.dms },
      if hasBad ts then .indexError else .ok)
   | .disconnect c =>
     let us := (s.dms.filter (fun q => q.1 == c)).map (·.2)
     let dms' := s.dms.filter (fun q => q.1 != c)
-    (⟨dms', dropUsers dms' us s.active⟩, .ok)
+    ({ s with dms := dms', active := dropUsers dms' us s.active }, .ok)
   | .register e u =>
-    if e < nUnits then (⟨s.dms, addPair (e, u) s.active⟩, .true) else (s, .false)
+    if e < nUnits ∧ e ∉ s.down then ({ s with active := addPair (e, u) s.active }, .true) else (s, .false)
   | .unregister e u =>
-    if e < nUnits ∧ (e, u) ∈ s.active then (⟨s.dms, s.active.filter (fun p => p != (e, u))⟩, .true)
+    if (e < nUnits ∧ e ∉ s.down) ∧ (e, u) ∈ s.active then
+      ({ s with active := s.active.filter (fun p => p != (e, u)) }, .true)
     else (s, .false)
+  | .engineDown e =>
+    -- the EngineData object (and its active_users) is dropped from the map; nothing if the unit is not in the map
+    if e < nUnits ∧ e ∉ s.down then ({ s with active := s.active.filter (fun p => p.1 != e), down := e :: s.down }, .ok)
+    else (s, .ok)
+  | .engineUp e =>
+    -- a fresh EngineData (empty active_users) replaces whatever was in the map under that id
+    if e < nUnits then ({ s with active := s.active.filter (fun p => p.1 != e),
+                                 down := s.down.filter (fun d => d != e) }, .ok)
+    else (s, .ok)
 
 def run (nUnits : Nat) (h : List Op) : State := h.foldl (fun s op => (step nUnits s op).1) init
 
@@ -84,14 +99,14 @@ def setConn (c u : Nat) (l : List (Nat × Nat)) : List (Nat × Nat) := (c, u) ::
 
 def stepOld (nUnits : Nat) (s : State) : Op → State × Out
   | .subscribe c ts =>
-    (⟨(subscribedUsers ts).foldl (fun d u => setConn c u d) s.dms, s.active⟩,
+    ({ s with dms := (subscribedUsers ts).foldl (fun d u => setConn c u d) s.dms },
      if hasBad ts then .indexError else .ok)
   | .disconnect c =>
     match s.dms.find? (fun q => q.1 == c) with
     | none => (s, .keyError)
     | some (_, u) =>
       if (s.dms.filter (fun q => q.2 == u)).length > 1 then (s, .ok)
-      else (⟨s.dms, s.active.filter (fun p => p.2 != u)⟩, .ok)
+      else ({ s with active := s.active.filter (fun p => p.2 != u) }, .ok)
   | op => step nUnits s op
 
 def runOld (nUnits : Nat) (h : List Op) : State := h.foldl (fun s op => (stepOld nUnits s op).1) init
